@@ -50,6 +50,35 @@ pub fn run(ctx: &Ctx) {
         let items = gen_items(&mut rng, &cfg, &GenOpts { defects, allow_scripts: false, allow_split: true });
         emit(&mut out, &Case { cfg, calls: vec![Call { rate_exp: gen_rate(&mut rng), items, script: vec![] }], sorted: true });
     }
+    // sequences on ONE formatter whose entries share per-metric dimension sets but differ in entry dimensions, split
+    // mode and strings: each call's records must still be exactly that entry's reference documents
+    let nseq = if ctx.tier_thorough { 6000 } else { 600 };
+    for _ in 0..nseq {
+        let cfg = gen_config(&mut rng);
+        let shared_dims: Vec<Vec<(String, String)>> = (0..2).map(|_| (0..rng.range(1, 2)).map(|_| (rng.pick(&["d1", "d2", "Kind"]).to_string(), rng.pick(&["x", "y"]).to_string())).collect()).collect();
+        let ncalls = rng.range(2, 4);
+        let mut calls = vec![];
+        for ci in 0..ncalls {
+            let mut items: Vec<Item> = vec![Item::Timestamp(1_000_000 * (ci as i128 + 1)), Item::Config(CItem::Split)];
+            let mut dim_names: Vec<String> = cfg.default_dims.concat();
+            if rng.chance(1, 2) {
+                let sets: Vec<Vec<String>> = (0..rng.range(1, 2)).map(|_| (0..rng.below(3)).map(|_| rng.pick(&["API", "Stage", "AZ"]).to_string()).collect()).collect();
+                dim_names.extend(sets.concat());
+                items.push(Item::Config(CItem::EntryDims(sets)));
+            }
+            dim_names.sort(); dim_names.dedup();
+            for d in &dim_names { items.push(Item::Value(d.clone(), VCall::Str(format!("v{ci}")))); }
+            for (mi, dims) in shared_dims.iter().enumerate() {
+                if rng.chance(3, 4) {
+                    items.push(Item::Value(format!("M{mi}_{}", rng.below(3)), VCall::Metric(gen_obs_list(&mut rng), gen_unit(&mut rng), dims.clone(), gen_flag(&mut rng))));
+                }
+            }
+            if rng.chance(1, 2) { items.push(Item::Value(format!("G{ci}"), VCall::Metric(vec![Obs::U(ci as u64)], UnitS::None, vec![], Flag::None))); }
+            calls.push(Call { rate_exp: if rng.chance(1, 6) { gen_rate(&mut rng) } else { None }, items, script: vec![] });
+        }
+        out.count("shared_dimension_set_sequence");
+        emit(&mut out, &Case { cfg, calls, sorted: true });
+    }
     // every unit, every flag, every observation class through one metric each
     for u in all_units() { for fl in [Flag::None, Flag::High, Flag::NoMetric, Flag::Foreign] { for rate in [None, Some(3)] {
         let cfg = Config { ctor: Ctor::AllValidations, namespaces: vec!["N".into(), "M".into()], default_dims: vec![vec![]], directives: vec![], log_group: None, allow_ignored: false };
